@@ -76,6 +76,11 @@ Challenge(v) == E(IF v = "sasl2" THEN "challenge2" ELSE "challenge")
 \*   victimOwnSecret                     the victim's NAME, the response computed from the attacker's own
 \*                                       secret hash MD5(attacker:realm:attacker-password) (DIGEST-MD5; for
 \*                                       PLAIN the same payload as otherUser)
+\*   victimReplay, ownOtherNonce, ownNoNonce   DIGEST-MD5 responses that are well-formed for the right secret
+\*                                       but NOT for the challenge issued on this stream: the victim's, recorded
+\*                                       from an honest exchange elsewhere (another nonce); the attacker's own for
+\*                                       another nonce; the same without a nonce.  Nothing is presented for THIS
+\*                                       challenge: refused like a wrong secret (Right = FALSE)
 \*   unknownPw, unknownEmpty             no such account ("nobody"): some password, the empty one
 \*   embedEmpty, embedBareEmpty, embedSlashEmpty   no such account, the NAME embeds the victim's address
 \*                                       ("victim@example.org/y", "victim@example.org", "victim/y"), empty password
@@ -90,7 +95,7 @@ ShapeCreds == {"malformed", "empty"}
 EmbedCreds == {"embedEmpty", "embedBareEmpty", "embedSlashEmpty", "embedKnown"}
 Asks(cr)   == cr \notin ShapeCreds \cup EmbedCreds      \* credentials that reach the password checker
 Nobody     == "nobody"
-UserOf(cr) == CASE cr \in {"otherUser", "victimEmpty", "victimOwnSecret"} -> Vic      \* whose name the credentials carry
+UserOf(cr) == CASE cr \in {"otherUser", "victimEmpty", "victimOwnSecret", "victimReplay"} -> Vic      \* whose name the credentials carry
                 [] cr \in {"unknownPw", "unknownEmpty"} -> Nobody
                 [] OTHER -> Att
 Right(cr)  == cr = "right"                              \* ... and whether the secret is that user's password
